@@ -77,7 +77,9 @@ def emit_one(g, gi, runtime_ctor=False, limits=None, extra_decl=''):
             elif s[0] == 'e': args.append('error')
             else: args.append(tref[s[1]])
         txt = 'n%d(%s)' % (r.lhs, ', '.join(args))
-        if r.prec: txt += '[%d]' % r.prec
+        # the explicit precedence may be written before or after the functor: n(..)[p] >= f   or   (n(..) >= f)[p]
+        post = bool(r.prec) and r.ftor != 'd' and (ri + gi + len(g.rules)) % 2 == 1
+        if r.prec and not post: txt += '[%d]' % r.prec
         vt = VT[g.vtypes[r.lhs]]
         if r.ftor == 'f': txt += ' >= vf::R<%d, %s>{}' % (ri, vt)
         elif r.ftor == 'x': txt += ' >>= vf::X<%d, %s>{}' % (ri, vt); is_ctx = True
@@ -85,6 +87,7 @@ def emit_one(g, gi, runtime_ctor=False, limits=None, extra_decl=''):
         elif r.ftor[0] == 'e' and r.ftor[1:].isdigit(): txt += ' >= _' + r.ftor
         elif r.ftor[0] == 'c' and r.ftor[1:] in VT: txt += ' >= vf::R<%d, %s>{}' % (ri, VT[r.ftor[1:]])
         else: txt += ' >= ' + r.ftor      # literal C++ functor expression (helper functors)
+        if post: txt = '(%s)[%d]' % (txt, r.prec)
         rules.append(txt)
     if extra_decl: o.append(extra_decl)
     tail = ''
